@@ -82,9 +82,13 @@ fn gen_clause(rng: &mut Rng, nv: usize, len: usize) -> Vec<L> {
 }
 
 fn gen_structured(rng: &mut Rng, nv: usize, nc: usize) -> Vec<Vec<L>> {
+    // wide family (a fifth of the formulas): two or three more variables and a few clauses of 5..8
+    // literals of mixed polarity among binary ones
+    let wide = nv >= 3 && rng.chance(1, 5);
+    let nv = if wide { (nv + 3).min(9) } else { nv };
     (0..nc)
         .map(|_| {
-            let len = *rng.pick(&[2usize, 2, 3, 3, 3, 4, 1]);
+            let len = if wide { *rng.pick(&[2usize, 2, 5, 6, 7, 8, 5, 2, 3]) } else { *rng.pick(&[2usize, 2, 3, 3, 3, 4, 1]) };
             gen_clause(rng, nv, len)
         })
         .collect()
